@@ -20,7 +20,7 @@
 
 """Cpp generator."""
 
-from beartype.typing import Any, Dict, Union, List, Tuple
+from beartype.typing import Any, Dict, Optional, Union, List, Tuple
 from typing_extensions import NoReturn
 from pathlib import Path
 import jinja2
@@ -52,13 +52,19 @@ def _to_highest_power_of_two(n: int) -> int:
 class ToCpp(TypeVisitor):
     """Fcp type to cpp conversion."""
 
+    def __init__(self, fcp: FcpV2, namespace: Optional[str] = None) -> None:
+        super().__init__(fcp)
+        # User types are spelled fully qualified: inside a generated struct an
+        # unqualified name may be hidden by a field's own `<Field>Type` alias.
+        self.prefix = "::fcp::" + (f"{namespace}::" if namespace else "")
+
     def struct(self, t: type.StructType, fields: List[type.Type], name: str) -> str:
         """Convert struct to cpp."""
-        return str(t.name)
+        return self.prefix + str(t.name)
 
     def enum(self, t: type.EnumType, name: str) -> str:
         """Convert enum to cpp."""
-        return str(t.name)
+        return self.prefix + str(t.name)
 
     def unsigned(self, t: type.UnsignedType, name: str) -> str:
         """Convert unsigned to cpp."""
@@ -99,9 +105,11 @@ class ToCpp(TypeVisitor):
         return f"Optional<{inner}>"
 
 
-def to_wrapper_cpp_type(fcp: FcpV2, input: Type) -> str:
+def to_wrapper_cpp_type(
+    fcp: FcpV2, input: Type, namespace: Optional[str] = None
+) -> str:
     """Convert fcp type to wrapper C++ type."""
-    return str(ToCpp(fcp).visit(input))
+    return str(ToCpp(fcp, namespace).visit(input))
 
 
 def get_matching_impls(fcp: FcpV2, protocol: str) -> List[Impl]:
